@@ -341,6 +341,10 @@ class Proto:
             if not inner:
                 inner = {""}
             acc = {""} | set(inner)
+            if kind == "opt" and mode == "ok" and c.get("path", "").startswith("std::result::Result::") and \
+                    c.get("path", "").endswith(("::and_then", "::map")) and self.is_hook_result(self._dest_ty(fn, t)):
+                # `res.and_then(|()| d.finish())`: the value is Ok only if the closure ran (and returned Ok)
+                acc = set(inner)
             if kind == "star":
                 for _ in range(4):
                     nxt = acc | cat(acc, inner)
@@ -357,6 +361,10 @@ class Proto:
                     return {BAD + ":arity"}
                 return self.push(self._summary(g, mode), sub(args[groot[0]]), root, mode, depth + 1)
         return None
+
+    def _dest_ty(self, fn, t):
+        d = t["dest"]
+        return fn.mir.local_ty(d["l"]) if not d["proj"] else None
 
     def _flow(self, fn, mode, bind=None, ctx_root=None, depth=0):
         m = fn.mir
@@ -578,6 +586,15 @@ class B1Site:
                     # `?`-style conversion E -> E (identity From) keeps the error
                     if d is not None:
                         nk[d] = ERR
+                    handled = True
+                elif c and c.get("path", "") in ("std::result::Result::<T, E>::and_then", "std::result::Result::<T, E>::map") \
+                        and akinds and akinds[0] == RES and d is not None and self.pr.is_hook_result(m.local_ty(d)):
+                    # `res.and_then(|()| next_step())`: an Err of `res` is the Err of the value; the closure runs only
+                    # after an Ok -- the result lives on in the destination
+                    nk[d] = RES
+                    if d == 0:
+                        ret = RES
+                    self.idiom.add("and_then")
                     handled = True
                 if not handled:
                     used = [x for x in akinds + ref_of if x in (RES, CF, RSD, ERR)]
@@ -980,6 +997,25 @@ def rule_B4(prog):
         ok = seq == want
         if ok:
             ok = fn.mir.dominates(calls[0][0], calls[1][0])
+        elif len(seq) == 1:
+            # `self.delete(..).and_then(|()| self.insert(..))`: the second call sits in a closure that runs after an Ok
+            from .facts import lift_upvars
+            m_ = fn.mir
+            for bb_, t_ in m_.calls():
+                c_ = m_.callee(t_) or {}
+                if c_.get("path") != "std::result::Result::<T, E>::and_then" or not m_.dominates(calls[0][0], bb_):
+                    continue
+                for a in c_.get("args", []):
+                    cf = prog.fn(a.get("path", "")) if isinstance(a, dict) and a.get("k") == "closure" else None
+                    if cf is None or not cf.mir:
+                        continue
+                    for _, ct, cc in _hook_calls(cf):
+                        idxs = []
+                        for arg in ct["args"][1:]:
+                            _, lt, _ = lift_upvars(prog, cf, cf.mir.resolve_operand(arg))
+                            idxs.append(_param_index(m_, lt))
+                        seq.append((cc["method"], idxs))
+            ok = seq == want
         r.ob(ok, "DiffHook::replace default = %s" % seq)
         if not ok:
             r.find(fn.path, "default-replace", "default replace must be delete(old_index, old_len, new_index) then "
@@ -1248,6 +1284,17 @@ def rule_B5(prog):
                                     not re.search(r"\b(filter|skip|take|step_by|rev|skip_while|take_while|filter_map)\(", src):
                                 tfe = (bb_, t_)
             if tfe is not None:
+                if not fin:
+                    # `...try_for_each(..).and_then(|()| d.finish())`: the inner finish runs iff the replay succeeded
+                    for bb_, t_ in m.calls():
+                        c_ = m.callee(t_) or {}
+                        if c_.get("path", "").startswith("std::result::Result::") and c_.get("path", "").endswith("::and_then"):
+                            cp = [a.get("path") for a in c_.get("args", []) if isinstance(a, dict) and a.get("k") == "closure"]
+                            cf = prog.fn(cp[0]) if cp else None
+                            if cf is not None and cf.mir:
+                                hc = _hook_calls(cf)
+                                if len(hc) == 1 and hc[0][2]["method"] == "finish":
+                                    fin = [(bb_, t_)]
                 if len(fin) != 1:
                     problems.append("%d inner finish calls" % len(fin))
                 if others:
@@ -1315,13 +1362,16 @@ def rule_B5(prog):
     return r
 
 
-def _b6_field_path(proj):
-    """`(*_1).old.current` -> 'old.current' (names of the field projections of a place rooted at self)."""
-    names = [e.get("name") for e in proj if isinstance(e, dict) and "field" in e]
+def _b6_field_path(proj, closure=False):
+    """`(*_1).old.current` -> 'old.current' (names of the field projections of a place rooted at self).  In a closure the
+    place is rooted at the captured `self` (`(*(*_1).0).old_current`): the leading environment slot is dropped."""
+    names = [e.get("name") if e.get("name") is not None else str(e.get("field")) for e in proj if isinstance(e, dict) and "field" in e]
+    if closure and names:
+        names = names[1:]
     return ".".join(str(n) for n in names) if names else None
 
 
-def _b6_self_field_term(t, depth=0):
+def _b6_self_field_term(t, depth=0, closure=False):
     """Resolved MIR term -> field path below `self`, or None."""
     names = []
     while isinstance(t, tuple) and t and depth < 12:
@@ -1332,6 +1382,8 @@ def _b6_self_field_term(t, depth=0):
         elif t[0] in ("deref", "ref"):
             t = t[1]
         elif t[0] == "local":
+            if closure and names:
+                names = names[:-1]          # the environment slot of the captured `self`
             return ".".join(reversed(names)) if names and (len(t) > 2 and t[2] == 1) else None
         else:
             return None
@@ -1383,7 +1435,7 @@ def _b6_summary(prog, fn, depth=0, memo=None):
                 start = None
                 if isinstance(term, tuple) and term and term[0] == "aggregate":
                     start = term[2].get("start")
-                curs.append(_b6_self_field_term(start))
+                curs.append(_b6_self_field_term(start, closure=(fn.kind == "Closure")))
             gaps.append((bb, curs, t["line"]))
             continue
         g = prog.fn(path)
@@ -1412,7 +1464,12 @@ def _b6_summary(prog, fn, depth=0, memo=None):
     for i, blk in enumerate(m.blocks):
         for s_ in blk["stmts"]:
             if s_["k"] == "assign" and s_["p"]["l"] == 1:
-                pth = _b6_field_path(s_["p"]["proj"])
+                pth = _b6_field_path(s_["p"]["proj"], closure=(fn.kind == "Closure"))
+                if pth:
+                    stores.setdefault(pth, []).append((i, False))
+            elif s_["k"] == "assign" and fn.kind == "Closure" and s_["p"]["proj"] and m.local_name(s_["p"]["l"]) is None:
+                # in a closure the captured `self` is first copied out of the environment into a temporary pointer
+                pth = _b6_self_field_term(m.resolve_place(s_["p"]), closure=True)
                 if pth:
                     stores.setdefault(pth, []).append((i, False))
     memo[fn.path] = {"gaps": gaps, "stores": stores}
@@ -1437,6 +1494,40 @@ def rule_B6(prog):
         summ = _b6_summary(prog, fn)
         gap = summ["gaps"]
         r.instances += 1
+        if not gap and not loops:
+            # the anchor loop written as `(0..len).try_for_each(|offset| { ..gap diff..; ..store cursors..; Ok(()) })`
+            done = False
+            for bb_, t_ in m.calls():
+                c_ = m.callee(t_) or {}
+                if c_.get("trait") == "std::iter::Iterator" and c_.get("method") in ("try_for_each", "for_each", "try_fold"):
+                    cfs = [prog.fn(a.get("path", "")) for a in c_.get("args", []) if isinstance(a, dict) and a.get("k") == "closure"]
+                    cfs = [x for x in cfs if x is not None and x.mir]
+                    if len(cfs) != 1:
+                        continue
+                    cf = cfs[0]
+                    cs = _b6_summary(prog, cf)
+                    if not cs or len(cs["gaps"]) != 1:
+                        continue
+                    done = True
+                    cm = cf.mir
+                    gb, cursors, gline = cs["gaps"][0]
+                    rets = set(cm.returns())
+                    problems = []
+                    if not cursors or None in cursors or len(set(cursors)) != 2:
+                        problems.append("gap ranges do not start at two self fields (%s)" % (cursors,))
+                    else:
+                        if _b6_avoidable(cm, [gb], rets):
+                            problems.append("a normal path through the closure skips the gap diff")
+                        for pth in cursors:
+                            after = [b for b, ag in cs["stores"].get(pth, []) if cm.dominates(gb, b) and (b != gb or ag)]
+                            if not after or _b6_avoidable(cm, after, rets):
+                                problems.append("cursor %s is not stored after the gap diff on every normal path" % pth)
+                    r.ob(not problems, "Patience::equal: anchor loop as `%s` closure: %s" % (c_.get("method"), problems or "gap diff, then both cursors stored, on every normal path"))
+                    if problems:
+                        r.find(fn.path, "anchor-skipped", "Patience::equal (anchor loop as a `%s` closure): %s" % (c_.get("method"), "; ".join(problems)),
+                               file=fn.file, line=gline)
+            if done:
+                continue
         if len(gap) != 1 or not loops:
             r.ob(False, "Patience::equal: %d gap-diff calls, %d loops" % (len(gap), len(loops)))
             r.find(fn.path, "gap-shape", "Patience::equal must contain exactly one inner myers::diff_deadline call (directly or in "
